@@ -16,7 +16,7 @@ EXTENDS UTest, Json, SequencesExt
 
 \* as-built tables (only the K = 2 tied base case differs)
 AbAffected == Len(T) = 2 /\ HasTies(T)
-CdfAB == IF AbAffected THEN CdfTable(TRUE, T, n1) ELSE cdf
+TabAB == IF AbAffected THEN Tables(TRUE, T, n1) ELSE [cdf |-> cdf, pmf |-> pmf]
 
 ClassRec(r, cT) ==
   LET u == U2xOfR(T, r) IN
@@ -34,12 +34,13 @@ ClassRec(r, cT) ==
              l1   |-> PLessOp(cT, u) ] ]
 
 OkCase ==
-  LET cT == CdfAB IN
+  LET tb == TabAB
+      cT == tb.cdf IN
   [ tag |-> "case", T |-> T, n1 |-> n1, outcome |-> "ok", total |-> Tot, top |-> Top,
     ties |-> HasTies(T), exact |-> UseExact(n1, Sum(T) - n1, HasTies(T)),
     hist |-> [i \in 1..(Top + 1) |-> hist[i-1]],
     ab_cdf |-> IF AbAffected THEN [i \in 1..(Top + 1) |-> cT[i-1]] ELSE <<>>,
-    ab_pmf |-> IF AbAffected THEN [i \in 1..(Top + 1) |-> PMFOp(TRUE, T, n1, i-1)] ELSE <<>>,
+    ab_pmf |-> IF AbAffected THEN [i \in 1..(Top + 1) |-> tb.pmf[i-1]] ELSE <<>>,
     classes |-> SetToSeq({ClassRec(r, cT) : r \in RVecs(T, n1)}) ]
 
 ErrCase == [ tag |-> "case", T |-> T, n1 |-> n1, outcome |-> Outcome(T, n1) ]
